@@ -23,7 +23,7 @@ EXPLANATION = (
     "assumptions | is_sat | is_valid | is_unsat, each solve sees exactly the live assertions (+ the one-shot "
     "formula), solver.assertions equals the live list at the end and, in a second pass, after every step, and "
     "the shortcuts return the truth the back-end's answer implies (R2).  Every concrete solver class of the "
-    "package decorates each assertion-stack method it implements with @clear_pending_pop (R3).  Portfolio, a concrete tracking solver whose back-end needs no library, interpreted as an incremental solver: the formula each solve hands on is the conjunction of the live assertions (R4).  Ordering rule over every Solver subclass, native wrappers included: a method that has set pending_pop = True reaches no @clear_pending_pop method or property of the same object before it returns (R5, flow graph + resolved self-calls).  Every API sequence also ends with the solver used as a context manager: __exit__ lets an exception of the with-block through; push / pop are also called with the level count as a keyword.  The sequences with a one-shot query are repeated under four sets of solver options (generate_models off, a seed, unsat-core mode, solver_options): what the stack holds does not depend on them (part of R2).  Scripts evaluated on an incremental solver through SmtLibScript.evaluate, all command sequences up to length 4 over assert | push | pop | reset-assertions | check-sat plus directed ones: every check-sat is answered for the live assertions of the script, the solver ends with them, and they are what get_last_formula reports (R6).")
+    "package decorates each assertion-stack method it implements with @clear_pending_pop (R3).  Portfolio, a concrete tracking solver whose back-end needs no library, interpreted as an incremental solver: the formula each solve hands on is the conjunction of the live assertions (R4).  Ordering rule over every Solver subclass, native wrappers included: a method that has set pending_pop = True reaches no @clear_pending_pop method or property of the same object before it returns (R5, flow graph + resolved self-calls).  Every API sequence also ends with the solver used as a context manager: __exit__ lets an exception of the with-block through; push / pop are also called with the level count as a keyword.  The sequences with a one-shot query are repeated under four sets of solver options (generate_models off, a seed, unsat-core mode, solver_options): what the stack holds does not depend on them (part of R2).  Scripts evaluated on an incremental solver through SmtLibScript.evaluate, all command sequences up to length 4 over assert | push | pop | reset-assertions | check-sat plus directed ones: every check-sat is answered for the live assertions of the script, the solver ends with them, and they are what get_last_formula reports (R6).  Two solver objects of one class used alternately, all interleavings up to length 4: each reports and solves its own live assertions (R7).")
 NOT_DECIDED = ["sequences longer than the bound (3 in the quick tier, 4 in the thorough tier)",
                "native solver bindings behind the converters (not installed; the probe stands for them)"]
 
@@ -117,6 +117,19 @@ def run(ctx):
             else:
                 ctx.finding(rs, "api|%s" % name, "after [%s]: %s" % (name, problems[0]), "pysmt/solvers/solver.py")
         ctx.floor(rs, 1500)
+
+    if ctx.want("R7"):
+        rs = ctx.rule("R7", "two solver objects used alternately: each tracks its own assertions and levels")
+        from . import solver_deep as sd
+        for seq, kind, problems in sd.pair_results(repo, ctx.tier):
+            name = " ; ".join("solver %s %s" % (x[0], sd.NAMES.get(x[1], x[1])) for x in seq)
+            if kind == "ok":
+                rs.ok({"sequence": name})
+            elif kind == "unsupported":
+                rs.unrec("%s: %s" % (name, problems[0][:160]))
+            else:
+                ctx.finding(rs, "pair|%s" % ",".join(seq), "after [%s]: %s" % (name, problems[0]), "pysmt/solvers/solver.py")
+        ctx.floor(rs, 500)
 
     if ctx.want("R6"):
         rs = ctx.rule("R6", "scripts evaluated on an incremental solver (SmtLibScript.evaluate): every check-sat is answered for the live "
